@@ -145,6 +145,23 @@ pub fn run(cx: &RunCtx) -> i32 {
     acc.merge(racc);
     acc.count("random_grammars", n_rand as u64);
 
+    // API family (model-free): InputRef / MapExtra span and slice accessors against the caller's buffer
+    {
+        let mut cs: Vec<Vec<char>> = all_inputs(&['a', ' ', 'é', '𝄞'], cx.t(5, 6));
+        let mut rng = Rng::derive(seed, 0xC07A, 0);
+        for _ in 0..cx.t(2000, 40_000) {
+            cs.push(random_input(&mut rng, &['a', 'b', ' ', ' ', 'é', '𝄞', '\u{301}'], 24));
+        }
+        let ws: Vec<String> = cs.iter().map(|c| c.iter().collect()).collect();
+        const CH: usize = 256;
+        let aacc = for_each_index((ws.len() + CH - 1) / CH, cx.threads, 1, |acc, ci| {
+            let (lo, hi) = (ci * CH, ((ci + 1) * CH).min(ws.len()));
+            super::c07api::family(acc, &ws[lo..hi], &cs[lo..hi]);
+        });
+        acc.merge(aacc);
+        acc.count("api_family_inputs", ws.len() as u64);
+    }
+
     // the slicing / span arithmetic under Miri (out-of-bounds or mid-character slicing of the input is UB or a
     // panic there) and, in the thorough tier, ASan
     crate::san::miri_job(&mut acc, cx, "C07", "c07", cx.t(10, 30), cx.t(2, 8));
@@ -156,14 +173,14 @@ pub fn run(cx: &RunCtx) -> i32 {
         cx,
         acc,
         Finish {
-            rule: format!("every grammar with <= {size} nodes over the C01/C02 class (with probes and validate emitters), every node wrapped in map_with capturing span and slice, x every input <= {max_len} over {{a,b,é}} on &str (byte offsets) and on a mapped (token, span) slice with gapped spans (token i = 10i+2..10i+7, end of input 10n..10n); every 3rd input on &[char] and Stream::map (gapped), every 5th on Stream; the same over the Input-only leaf basis on IterInput (gapped); {n_rand} random grammars of {}..13 nodes x 5 multi-byte inputs. Compared with the reference evaluation: every node's span (incl. empty matches: empty span between the neighbouring tokens), slice text = input[span], slice address = caller's buffer + offset, to_span/to_slice nodes, foldl_with/foldr_with callback spans, spans handed to validate and try_map closures, spans of zero-width probes. A slice of the random part also runs under Miri (thorough: ASan). Non-trivial: accepted input with >= 1 token consumed", size + 1),
+            rule: format!("every grammar with <= {size} nodes over the C01/C02 class (with probes and validate emitters), every node wrapped in map_with capturing span and slice, x every input <= {max_len} over {{a,b,é}} on &str (byte offsets) and on a mapped (token, span) slice with gapped spans (token i = 10i+2..10i+7, end of input 10n..10n); every 3rd input on &[char] and Stream::map (gapped), every 5th on Stream; the same over the Input-only leaf basis on IterInput (gapped); {n_rand} random grammars of {}..13 nodes x 5 multi-byte inputs. Compared with the reference evaluation: every node's span (incl. empty matches: empty span between the neighbouring tokens), slice text = input[span], slice address = caller's buffer + offset, to_span/to_slice nodes, foldl_with/foldr_with callback spans, spans handed to validate and try_map closures, spans of zero-width probes. A slice of the random part also runs under Miri (thorough: ASan). Non-trivial: accepted input with >= 1 token consumed. API family (model-free, judged against the caller's buffer alone): a hand-written custom stepper calling InputRef::span_since / span_from / slice / slice_since / slice_from before and after taking 1..2 tokens, and MapExtra::span / MapExtra::slice / to_span / to_slice captures around abandoned alternatives, lookahead and empty matches, x every string <= 5/6 over {{a,space,é,𝄞}} + random multi-byte strings, on &str and &[char]: every span on token boundaries inside the input, every slice == input[span] by address and length, open-ended forms reach the end of the input", size + 1),
             exhaustive: false,
             exhaustive_note: format!("grammars <= {size} nodes x inputs <= {max_len}: complete on &str and the mapped slice"),
             assumptions: vec![
                 "an empty match on a gapped-span input may report any empty span between the end of the preceding and the start of the following token".into(),
                 "Pratt fold callback spans are checked by the C09 driver".into(),
             ],
-            require: vec![("node_extents_compared".into(), 100_000), ("empty_extents_compared".into(), 10_000), ("slices_compared_by_address".into(), 100_000), ("emission_spans_compared".into(), 1000), ("probe_spans_compared".into(), 1000), ("miri_processes_clean".into(), 1)],
+            require: vec![("node_extents_compared".into(), 100_000), ("empty_extents_compared".into(), 10_000), ("slices_compared_by_address".into(), 100_000), ("emission_spans_compared".into(), 1000), ("probe_spans_compared".into(), 1000), ("miri_processes_clean".into(), 1), ("api_family_spans_and_slices_checked".into(), 100_000)],
             min_evaluations: 10_000,
         },
     )
